@@ -507,6 +507,7 @@ func (ctx *Ctx) rloop(path []byte, node *node, tpl *Tpl, w io.Writer) {
 				// Prepare RL object.
 				rl.cntr = 0
 				rl.c = 0
+				rl.err = nil
 				rl.node = node
 				rl.tpl = tpl
 				rl.ctx = ctx
@@ -515,6 +516,12 @@ func (ctx *Ctx) rloop(path []byte, node *node, tpl *Tpl, w io.Writer) {
 			// Mark RL as inuse and loop over var using inspector.
 			rl.stat = rlInuse
 			ctx.Err = v.ins.Loop(v.val, rl, &rl.buf, ctx.bufS[1:]...)
+			if rl.err != nil {
+				// Iteration failed.
+				ctx.Err, rl.err = rl.err, nil
+				rl.stat = rlFree
+				return
+			}
 
 			// Check for-else condition.
 			if rl.c == 0 && len(node.child) > 1 && node.child[1].typ == typeCondFalse {
